@@ -313,9 +313,9 @@ func (na *NilAn) collectSites() []derefSite {
 
 // requiresValidated: callee -> structure check that must have succeeded on every path to the call.
 var requiresValidated = map[string]string{
-	"revocation.(*Proof).ChallengeContributions":           "revocation.(*proofStructure).verifyProofStructure",
+	"revocation.(*Proof).ChallengeContributions":           "revocation.verifyProofStructure",
 	"rangeproof.(*ProofStructure).CommitmentsFromProof":    "rangeproof.(*ProofStructure).VerifyProofStructure",
-	"revocation.(*proofStructure).commitmentsFromProof":    "revocation.(*proofStructure).verifyProofStructure",
+	"revocation.commitmentsFromProof":    "revocation.verifyProofStructure",
 }
 
 func (na *NilAn) indexSites(fn *ssa.Function, ins ssa.Instruction, X, idx ssa.Value, out *[]derefSite) {
